@@ -123,6 +123,8 @@ def run_property(pid, tier, only=None):
             extra[name] = fn(tier, seed)
             for v in extra[name].get('violations', []):
                 failed.append(v)
+                if extra[name].get('failing_input') and 'replay_result' not in spec:
+                    spec['replay_result'] = extra[name]['failing_input']
         except CheckerError as ex:
             errors.append('%s: %s' % (name, ex))
     violations = []
